@@ -201,9 +201,10 @@ func H_Leaf_RingSeg(p []int) {
 	ring := newRing(pts, &IndexOptions{Kind: vKind(kind), MinPoints: minPts})
 	A, B := vPoint("a", 0), vPoint("b", 0)
 	seg := Segment{A, B}
-	var got, want bool
+	var got, want, ref bool
 	if fn == 0 {
 		got = ringIntersectsSegment(ring, seg, allow)
+		ref = ref_ringIntersectsSegment(ring, seg, allow)
 		if allow {
 			want = sSegMeetsClosed(v, A, B)
 		} else {
@@ -211,6 +212,7 @@ func H_Leaf_RingSeg(p []int) {
 		}
 	} else {
 		got = ringContainsSegment(ring, seg, allow)
+		ref = ref_ringContainsSegment(ring, seg, allow)
 		if allow {
 			want = sSegInClosed(v, A, B)
 		} else {
@@ -235,8 +237,10 @@ func H_Leaf_RingSeg(p []int) {
 		fn := !got && want && (vOn || (endAOn && endBOn))
 		if fp {
 			vKnown("C03-contains-seg-false-positive-on-contact", false)
+			vAssert(got == ref, "C03.leaf-known-class-answer-differs-from-recorded-algorithm")
 		} else if fn {
 			vKnown("C03-contains-seg-false-negative-on-contact", false)
+			vAssert(got == ref, "C03.leaf-known-class-answer-differs-from-recorded-algorithm")
 		} else {
 			vAssert(got == want, "C03.leaf-ring-contains-segment")
 		}
@@ -245,6 +249,7 @@ func H_Leaf_RingSeg(p []int) {
 		// touches the ring boundary; exact in general position
 		if got != want && (vOn || endAOn || endBOn) {
 			vKnown("C03-hole-boundary-contact", false)
+			vAssert(got == ref, "C03.leaf-known-class-answer-differs-from-recorded-algorithm")
 		} else {
 			vAssert(got == want, "C03.leaf-ring-meets-open")
 		}
